@@ -541,6 +541,10 @@ def run(ck):
                 a2o = skip_copies(deref_local(fn, a2.get("obj"))) if is_call(a2, "QString::left") else None
                 ok2 = is_call(a2, "QString::left") and const_int(a2["args"][0]) == 100 and is_call(a2o, LM + "::message") and obj_is_param(a2o, fn, 0)
                 cut = is_call(a2, ("QString::left", "QString::mid", "QString::right", "QString::chopped"))
-                ck.ob("C18-O3", sitestr(fn, apps[2]), True if ok2 else (False if cut or is_call(a2, LM + "::message") else None), "fingerprint[2] = message().left(100)" if ok2 else "fingerprint[2] = %s" % describe(a2), key="format|fingerprint-2")
+                bytecut = [x for x in walk(a2) if x.get("k") == "call" and x.get("ck") == "member" and strip_tmpl(x.get("cls") or "") in ("QByteArray", "QByteArrayView", "std::string", "std::basic_string")
+                           and (x.get("callee") or "").split("::")[-1] in ("left", "mid", "right", "chopped", "first", "sliced", "truncate", "substr", "resize", "chop")]
+                ck.ob("C18-O3", sitestr(fn, apps[2]), True if ok2 else (False if cut or bytecut or is_call(a2, LM + "::message") else None), "fingerprint[2] = message().left(100)" if ok2 else
+                      "fingerprint[2] = %s%s" % (describe(a2), ": the cut is made on the encoded bytes - 100 bytes are fewer than 100 characters for any non-ASCII text, and a sequence cut in the middle decodes to U+FFFD" if bytecut else ""),
+                      key="format|fingerprint-2")
         else:
             ck.ob("C18-O3", sitestr(fn, s["node"]), None, "fingerprint is not a local array")
